@@ -182,4 +182,52 @@ def r16_4(ctx: Ctx) -> RuleResult:
     return rr
 
 
-RULES = [r16_1, r16_2, r16_3, r16_4]
+def r16_5(ctx: Ctx) -> RuleResult:
+    """The offset result that is stored is the value that was tested for being
+    negative, and it is computed from the token left *after* stepping up."""
+    from .common import must_flow
+
+    rr = RuleResult("R16.5", "the stored index offset is the one tested against zero", floor=1)
+    fn = ctx.repo.require_func("RelativeJSONPointer.to")
+
+    defs = {}
+    for n in ast.walk(fn.node):
+        if isinstance(n, ast.Assign) and isinstance(n.targets[0], ast.Name):
+            defs.setdefault(n.targets[0].id, []).append(ast.unparse(n.value))
+
+    def refine(test: ast.expr, branch: bool) -> List[str]:
+        if isinstance(test, ast.Compare) and len(test.ops) == 1:
+            c = test.comparators[0]
+            if isinstance(c, ast.Constant) and c.value == 0:
+                if (isinstance(test.ops[0], ast.Lt) and not branch) or (isinstance(test.ops[0], ast.GtE) and branch):
+                    return ["nonneg@" + ast.unparse(test.left)]
+        return []
+
+    flow = must_flow(fn.node, refine_events=refine)
+    n = 0
+    for a in ast.walk(fn.node):
+        if not (isinstance(a, ast.Assign) and isinstance(a.targets[0], ast.Subscript)):
+            continue
+        t = a.targets[0]
+        if not (path_of(t.value) and ast.unparse(t.slice) in ("-1",)):
+            continue
+        v = a.value
+        if isinstance(v, (ast.JoinedStr, ast.Constant)):
+            continue  # the `#` key marker, not an index
+        n += 1
+        st = flow.pre.get(id(a)) or frozenset()
+        vt = ast.unparse(v)
+        tested = {e[len("nonneg@"):] for e in st if e.startswith("nonneg@")}
+        ok = vt in tested or any(vt in defs.get(x, []) for x in tested)
+        if ok:
+            rr.ok(fn.loc(a), f"`{short(a)}`: the stored value was tested for negativity")
+        else:
+            rr.bad(fn, a, f"`{short(a)}` stores an index offset result that has not itself been tested against zero "
+                   f"(tested: {sorted(tested) or 'nothing'}): an offset that makes the index negative must be refused, "
+                   "for the token that remains after stepping up", construct=short(a))
+    if n == 0:
+        raise AnalysisError("R16.5: no index-offset store found in RelativeJSONPointer.to")
+    return rr
+
+
+RULES = [r16_1, r16_2, r16_3, r16_4, r16_5]
